@@ -42,6 +42,9 @@ def step (d : D) (ws : List String) : D × String :=
   | ["open", m] => match ((m.splitOn "=").getD 1 "").toNat? with
     | some n => ({ s := { cfg := { memTableSize := n } } }, "ok")
     | none => (d, "bad-op")
+  | ["open", m, "walmax=1"] => match ((m.splitOn "=").getD 1 "").toNat? with
+    | some n => ({ s := { cfg := { memTableSize := n, freshLog := true } } }, "ok")
+    | none => (d, "bad-op")
   | ["put", k, v] => match parseBytes k, parseBytes v with
     | some kk, some vv => let s := put d.s kk vv; ({ s }, showW s)
     | _, _ => (d, "bad-op")
@@ -61,7 +64,7 @@ def step (d : D) (ws : List String) : D × String :=
     | some kk => (d, match get d.s kk with | some v => s!"found {showBytes v}" | none => "nf")
     | none => (d, "bad-op")
   | ["flush"] => let s := flushMemTables d.s; ({ s }, "ok")
-  | ["reopen"] => let s := reopen d.s; ({ s }, showW s)
+  | ["reopen"] => let s := reopenC d.s; ({ s }, showW s)
   | ["scan", lo, hi] => match optB lo, optB hi with
     | some l, some h =>
       let srcs := (sources d.s).map srcKV
